@@ -14,8 +14,11 @@ VERIF = os.path.dirname(os.path.dirname(os.path.abspath(__file__)))
 REPO = os.environ.get('VERIF_REPO', '/repo')
 COQ = os.path.join(VERIF, 'coq')
 BUILD = os.path.join(VERIF, 'build')
-REPLAYS = os.path.join(VERIF, 'replays')
-EVIDENCE = os.path.join(VERIF, 'evidence')
+# a run against another checkout (VERIF_REPO, used to try seeded changes) must not
+# overwrite the evidence and replays of /repo itself
+_OUT = VERIF if REPO == '/repo' else os.path.join(VERIF, 'build', 'scratch', 'other_repo')
+REPLAYS = os.path.join(_OUT, 'replays')
+EVIDENCE = os.path.join(_OUT, 'evidence')
 PY = '/venv/bin/python'
 
 ALLOWED_AXIOMS = {
@@ -311,3 +314,33 @@ TRUSTED_BASE = [
 
 def rng_for(seed, salt=''):
     return random.Random(f'{seed}:{salt}')
+
+
+def scenario_replay(ctx, rep, table):
+    """Replay of a failure found by an implementation-only scenario generator: the generator is re-run with the
+    recorded seed and tier (each scenario draws from its own PRNG stream) and the failure reproduces when a
+    failure with the same signature and the same recorded history shows up again."""
+    case = rep['case']
+    ctx.seed, ctx.tier = case.get('seed', 0), case.get('tier', 'quick')
+
+    class _Out:
+        def __init__(self):
+            self.fails, self.coverage, self.assumptions, self.notes = [], {}, [], []
+
+        def fail(self, signature, what, case):
+            self.fails.append((signature, what, case))
+
+        def diff(self, what, case):
+            self.fails.append(({'diff': True}, what, case))
+    o = _Out()
+    table[case['scenario']](ctx, o)
+    for sig, what, c in o.fails:
+        if c.get('history') == case.get('history'):
+            print('REPRODUCED', what)
+            return 1
+    for sig, what, c in o.fails:
+        if sig == rep.get('signature'):
+            print('REPRODUCED (same signature, other history)', what)
+            return 1
+    print('not reproduced')
+    return 0
